@@ -554,7 +554,7 @@ def handleCore (mac : Bool) (args : List String) (obs : String) : Option Reply :
          want ≠ got
        let extra := implK.find? fun (s, a, n) => n ≠ 0 ∧ !(nbRuns.any fun c => c.slot = s ∧ c.arg = a)
        (match bad with
-        | some c => [s!"[C12][C13][C15][C17] a benchmark function without a Bencher was not called the resolved number of times (case {c.path})"]
+        | some c => [s!"[C12][C13][C15][C17][C03] a benchmark function without a Bencher was not called the resolved number of times (case {c.path})"]
         | none => []) ++
        (match extra with
         | some (s, _, _) => [s!"[C12][C13][C17] a benchmark function without a Bencher was called although its case is not selected (slot {s})"]
